@@ -229,16 +229,25 @@ class Worker:
             return Crash("stack_overflow", "main thread overflowed its stack", tail)
         llvm = [l for l in lines if not l.startswith("PV-PANIC")]
         if rc == -signal.SIGABRT or any("LLVM ERROR" in l for l in lines):
-            first = next((l for l in llvm if "LLVM ERROR" in l), None)
-            if first is None:
-                # verifier output comes before "Broken module found"
-                first = llvm[0] if llvm else "abort"
-            return Crash("llvm_abort", abstract_llvm_message(first.strip())[:300], tail)
+            # the verifier prints its complaints (unindented lines) before "LLVM ERROR: Broken ... found";
+            # the first complaint identifies the defect better than the generic last line
+            msgs = [l for l in llvm if not l.startswith(" ") and "LLVM ERROR" not in l]
+            last = next((l for l in reversed(llvm) if "LLVM ERROR" in l), None)
+            if last is not None and "LLVM ERROR" in last:
+                last = last[last.index("LLVM ERROR"):]
+            first = msgs[0] if msgs else (last or (llvm[0] if llvm else "abort"))
+            detail = abstract_llvm_message(first.strip())[:200]
+            if msgs and last:
+                detail += " / " + last.strip()[:80]
+            return Crash("llvm_abort", detail, tail)
         if rc is not None and rc < 0:
             if rc == -signal.SIGSEGV:
                 return Crash("signal", "SIGSEGV", tail)
             return Crash("signal", "signal %d" % (-rc), tail)
-        return Crash("exit", "exit status %s" % rc, tail)
+        errs = [l for l in llvm if l.startswith("error:") or "rror:" in l]
+        pick = errs[-1] if errs else (llvm[-1] if llvm else "")
+        first = abstract_llvm_message(pick.strip())[:200]
+        return Crash("exit", "exit status %s: %s" % (rc, first), tail)
 
     def request(self, req, timeout=30.0):
         """Returns (response_dict, None) or (None, Crash)."""
@@ -370,14 +379,54 @@ def call(req, build="chk", timeout=30.0, retry_alone=True):
     return "resp", resp
 
 
+_src_cache = {}
+
+
+def _source_site(path, line):
+    """(enclosing fn name, trimmed source text) of a panic site: stable under unrelated edits."""
+    try:
+        if path not in _src_cache:
+            with open(path, errors="replace") as f:
+                _src_cache[path] = f.read().splitlines()
+        lines = _src_cache[path]
+        text = lines[line - 1].strip() if 0 < line <= len(lines) else "?"
+        fn = "?"
+        import re
+        for i in range(min(line, len(lines)) - 1, -1, -1):
+            m = re.match(r"\s*(?:pub(?:\([a-z]+\))?\s+)?(?:unsafe\s+)?fn\s+([A-Za-z0-9_]+)", lines[i])
+            if m:
+                fn = m.group(1)
+                break
+        return fn, text
+    except Exception:
+        return "?", "?"
+
+
 def panic_signature(resp):
+    """panic: <file>::<enclosing fn>: <source text of the panicking line>: <head of the message>.
+    No line numbers (unrelated edits must not un-list a finding); payload details such as the
+    Debug print of a type are cut off after the message head."""
+    import re
     site = resp.get("site", "?")
-    # file without line number, so unrelated edits above do not change it
-    f = site.rsplit(":", 1)[0]
-    f = f.replace(REPO + "/", "")
-    if f.startswith("/") and "/src/" in f:
-        f = f[f.index("/src/") + 1:]
-    return "panic: %s: %s" % (f, resp.get("msg", "")[:160])
+    path, _, line = site.rpartition(":")
+    try:
+        line = int(line)
+    except ValueError:
+        line = 0
+    f = path
+    if f.startswith(REPO + "/"):
+        f = f[len(REPO) + 1:]
+        fn, text = _source_site(path, line)
+    else:
+        # panic inside a dependency or std
+        if "/src/" in f:
+            f = f[f.rindex("/", 0, f.index("/src/")) + 1:]
+        fn, text = "?", "?"
+    msg = resp.get("msg", "")
+    head = re.split(r"[{(\[\"':]| \d", msg, maxsplit=1)[0].strip()[:80]
+    if msg.startswith("internal error") or msg.startswith("assertion") or msg.startswith("not "):
+        head = re.sub(r"\d+", "N", msg.split("\n")[0])[:100]
+    return "panic: %s::%s: %s: %s" % (f, fn, text[:120], head)
 
 
 # --------------------------------------------------------------------------
